@@ -263,7 +263,7 @@ class C16(vlib.Driver):
     def generate(self, tier, rng):
         cases = []
         reps = 1 if tier == "quick" else 6
-        actor_reps = 3 if tier == "quick" else 4          # actor-level cases are cheap (no agent construction)
+        actor_reps = 2 if tier == "quick" else 4          # actor-level cases are cheap (no agent construction)
         for rep in range(reps):
             for sp in self.space_grid(rng, tier):
                 box = sp["kind"] == "box"
@@ -751,6 +751,19 @@ class C16(vlib.Driver):
                 return "within-group-permuted" if within else ("groups-permuted" if first(keys) != first(IDS) else "canonical")
             orders = {"obs": list(ko), "infos": list(infos) if infos else None,
                       "infos_class": order_class(list(infos)) if infos else "none", "obs_class": order_class(list(ko))}
+            if infos:      # the mask plumbing observed directly: what extract_action_masks hands to each policy (rows encoded as bit numbers)
+                def code(m):
+                    return int("".join("1" if x else "0" for x in np.asarray(m).reshape(-1)[::-1]), 2)
+                try:
+                    am = agent.extract_action_masks(infos)
+                    vals = list(am.values()) if isinstance(am, dict) else []
+                    orders["plumbing"] = {
+                        "ids": [[group[i], int(i.rsplit("_", 1)[1])] for i in IDS],
+                        "infos": [[[group[i], int(i.rsplit("_", 1)[1])], code(infos[i]["action_mask"])] for i in infos],
+                        # get_action zips the VALUES positionally with the actors: position k belongs to policy k
+                        "rows": [[k, [code(r) for r in np.asarray(v)]] for k, v in enumerate(vals) if v is not None]}
+                except Exception as e:
+                    orders["plumbing"] = {"error": f"{type(e).__name__}: {e}"}
             try:
                 a, lp, ent, _ = agent.get_action(ko, infos)
             except Exception as e:      # the code under test raised: reported by the oracle, with the input
@@ -891,7 +904,16 @@ class C16(vlib.Driver):
             return "false"
         t = f"check_outputs ({self.cfg_term(cfg)}) [{'; '.join(data)}]"
         sup = self.support_term(case, obs)
-        return t + (" && " + sup if sup else "")
+        t = t + (" && " + sup if sup else "")
+        pl = (obs.get("orders") or {}).get("plumbing")
+        if pl:
+            if "error" in pl:
+                return "false"
+            ag = lambda a: f"({a[0]}%nat, {a[1]}%nat)"
+            t += (" && check_ippo_masks [" + "; ".join(ag(a) for a in pl["ids"]) + "] ["
+                  + "; ".join(f"({ag(a)}, {m}%N)" for a, m in pl["infos"]) + "] ["
+                  + "; ".join(f"({k}%nat, [" + "; ".join(f"{r}%N" for r in rows) + "])" for k, rows in pl["rows"]) + "]")
+        return t
 
     def support_term(self, case, obs):
         sp, B = case["space"], case["B"]
@@ -972,9 +994,10 @@ class C16(vlib.Driver):
                       f"definition under the current distribution gives {want!r} (logits {lg[b].tolist()}, log_std {ls})")
                     break
         # same policy, same observation, same action: the re-evaluated log-probability must be the one reported at rollout time
-        if scen == "ppo_eval" and case["variant"] == "same" and "lp_rollout" in out and "lp2" in out and not case.get("prep"):
+        # (not for squashed policies: a saturated stored action +-1 has a whole interval of pre-images, the two values legitimately differ)
+        if scen == "ppo_eval" and case["variant"] == "same" and "lp_rollout" in out and "lp2" in out and not case.get("prep") and not sq:
             for b in range(B):
-                if not close(out["lp_rollout"][b], out["lp2"][b], 1e-3 if sq else 0.0):
+                if not close(out["lp_rollout"][b], out["lp2"][b]):
                     masked_row = bool(env.get("mask")) and (0 in env["mask"][b])
                     vs.append(Violation("reeval-same-policy", f"reeval-same-policy:ppo:ppo_eval:{sp['kind']}:{'masked' if masked_row else 'unmasked'}",
                                         f"row {b}: get_action reported log_prob {out['lp_rollout'][b]!r} for action {env['action'][b]}"
